@@ -31,27 +31,33 @@ RULE = (
     "Hypothesis RuleBasedStateMachine (one run = one history of <= 25/40 steps) over a pool of (collection, NumPy "
     "mirror) entries. Steps: new (from_array over a fresh NumPy source, rank 1-3, axis lengths 0-8, f8/i8/bool, five "
     "chunking families), derive (basic slice incl. negative steps, +1, *2, v+w, sum over an axis, transpose, rechunk, "
-    "copy, asarray, v>k, v[v>k] and v[v[:,0]>k] giving unknown chunks; the mirror is a copy unless the operation "
-    "returns the very same Array object, then the entry is an alias), setitem (keys: ints, slices of all signs/steps, "
+    "copy, persist, asarray, v>k, v[v>k] and v[v[:,0]>k] giving unknown chunks; the mirror is a copy; only when "
+    "asarray/slice/transpose/rechunk hand back the very same Array object the entry is an alias; a third of the new "
+    "members are verified through a throw-away twin so that the pooled object is first computed after a mutation), "
+    "setitem (keys: ints, slices of all signs/steps, "
     "Ellipsis, one int list / NumPy int array / 1-d NumPy bool mask / 1-d dask int or bool array on one axis, "
     "full-shape NumPy bool mask, full-shape dask bool mask incl. v>k of the target itself; values: scalar, NumPy array "
     "broadcastable to the selection, fresh dask array, slice of a pool member incl. the target itself, np.ma.masked; "
     "a few invalid assignments), ufunc_out (np/da add, multiply, negative, sin with out=v, where= NumPy/dask masks), "
     "compute_chunk_sizes, compute, compute_all, drop. Oracle: the same NumPy operation on the mirror of the target "
     "only. Invariant: after EVERY mutating step (setitem / ufunc_out / compute_chunk_sizes, also refused or failed "
-    "ones) and at the end of the history every live pool member computes `same` as its mirror and every source array "
-    "equals its pristine copy; after new/derive/compute only the touched member is compared. Non-trivial history: a "
+    "ones) and at the end of the history every live pool member computes `same` as its mirror (values, shape, dtype, "
+    "mask, advertised dtype/shape) - one compute() per member, or for a drawn third of the steps ONE joint "
+    "dask.compute(*members) over the merged graph - and every source array equals its pristine copy; after "
+    "new/derive/compute only the touched member is compared. Non-trivial history: a "
     "collection derived from v (still alive) precedes a successful mutation of v and both are computed afterwards; "
     "distinct = distinct step list."
 )
 ASSUMPTIONS = [
     "NumPy assignment / ufunc out= semantics on a private copy of the target's value is the reference; other pool members follow value semantics (no view aliasing) unless the operation returned the identical Array object",
     "x[...] = np.ma.masked turns x into a masked array (documented dask behaviour); the mirror is converted with np.ma.array first",
-    "assignment forms that dask_array refuses loudly at assignment time are classes, not failures: NotImplementedError, None in the key, a full-shape NumPy bool mask on a >=2-d array, an array value with a full-shape dask mask, a non-unit-size value for an empty selection, out= larger than the broadcast inputs, any non-mask key on an array with unknown chunk sizes; the refused assignment must leave every pool member unchanged",
+    "assignment forms that dask_array refuses loudly AT ASSIGNMENT TIME are classes, not failures: NotImplementedError, None in the key, a full-shape NumPy bool mask on a >=2-d array, an array value with a full-shape dask mask, an array value for an empty selection, out= larger than the broadcast inputs, any non-mask key on an array with unknown chunk sizes; the refused assignment must leave every pool member unchanged; any other exception at assignment, and every exception at compute time, is a failure",
     "when NumPy raises on the mirror dask_array must raise at assignment or at the next compute of the target",
+    "a history ends at its first failing step; regions of listed open findings (known_findings.json, ids in REGION_DOC) are steered around by construction and counted in excluded_known",
 ]
 
 MAX_POOL = 8
+MAX_WEIGHT = 1500  # generator stops growing a member whose expression tree would exceed this (2**k blow-up of x = f(x, x))
 DTYPES = ("i8", "f8", "bool")
 REFKEYS = ("src", "tgt", "other")
 
@@ -67,6 +73,7 @@ KF_DBOOL_BCAST = "KF-setitem-dask-bool-index-broadcast-value"
 KF_DINT_ND = "KF-setitem-dask-int-index-nd-value"
 KF_LEADING_ONE = "KF-setitem-value-extra-leading-dim"
 KF_WHERE_0D = "KF-ufunc-where-0d-out"
+KF_NEG_ZERO_CHUNK = "KF-negstep-slice-zero-width-chunk"
 KF_SEPARATED = "KF-index-int-fancy-separated"
 KF_RESHAPE0 = "KF-reshape-zero-size"
 
@@ -121,7 +128,7 @@ def _copy(a):
 
 
 class Ent:
-    __slots__ = ("coll", "mirror", "eid", "anc", "computed", "nmut", "tainted", "how", "uout")
+    __slots__ = ("coll", "mirror", "eid", "anc", "computed", "nmut", "tainted", "how", "uout", "weight", "tags")
 
     def __init__(self, coll, mirror, eid, anc, tainted, how):
         self.coll = coll
@@ -133,6 +140,8 @@ class Ent:
         self.tainted = tainted
         self.how = how
         self.uout = False  # an ufunc out= result is somewhere in this member's expression
+        self.weight = 1  # size of the expression written out as a tree (shared sub-expressions counted each time)
+        self.tags = set()  # defect regions this member's history went through (see REGION_DOC)
 
     @property
     def masked(self):
@@ -179,6 +188,17 @@ def is_full_dmask(key, ndim):
     if any(isinstance(e, dict) and ("dfull" in e or "dcmp" in e) for e in t):
         return True
     return bool(key.get("bare")) and ndim == 1 and len(t) == 1 and isinstance(t[0], dict) and "dask" in t[0] and "boolarr" in t[0]["dask"]
+
+
+def has_neg_step(index_enc):
+    return any(isinstance(e, dict) and "slice" in e and e["slice"][2] is not None and e["slice"][2] < 0 for e in index_enc["tuple"])
+
+
+def has_zero_chunk(coll):
+    try:
+        return any(len(c) > 1 and 0 in c for c in coll.chunks)
+    except Exception:
+        return False
 
 
 def key_props(key):
@@ -337,6 +357,15 @@ class Interp:
                 return "raises", util.exc_detail(e), e
         ent.computed = True
         why = util.same(got, ent.mirror)
+        if why is None:
+            # the advertised metadata is part of "computes to the NumPy result"
+            adv = ent.coll.dtype
+            if adv != ent.mirror.dtype:
+                why = f"advertised-dtype {adv} != {ent.mirror.dtype}"
+            else:
+                ash = tuple(ent.coll.shape)
+                if not any(isinstance(n, float) and n != n for n in ash) and ash != tuple(ent.mirror.shape):
+                    why = f"advertised-shape {ash} != {tuple(ent.mirror.shape)}"
         if why is None and np.ma.isMaskedArray(ent.mirror) != np.ma.isMaskedArray(got) and np.ma.getmaskarray(ent.mirror).any():
             why = "mask lost"
         if why is None:
@@ -383,6 +412,7 @@ class Interp:
             if why is None:
                 continue
             rel = self._relation(ent, target)
+            self.tags |= ent.tags
             head = f"member {i} ({ent.how}, relation to target: {rel})\n"
             if rel == "target":
                 if exc is not None:
@@ -397,6 +427,8 @@ class Interp:
             if not (arr.shape == pristine.shape and arr.dtype == pristine.dtype and np.array_equal(arr, pristine)):
                 add(f"source-mutated|{step_kind}", f"source array {k} changed:\n now={_short(arr)}\n was={_short(pristine)}")
         if joint_exc is not None and not fails:
+            for _, ent in live:
+                self.tags |= ent.tags
             add(util.exc_bucket(f"joint-compute-raises|{step_kind}", joint_exc), util.exc_detail(joint_exc))
         return fails
 
@@ -508,6 +540,8 @@ class Interp:
             idx = self._basic_index(spec["index"])
             if w.uout:
                 self.tags.add(KF_SLICE_UOUT)
+            if has_neg_step(spec["index"]) and has_zero_chunk(w.coll):
+                self.tags.add(KF_NEG_ZERO_CHUNK)
             try:
                 vm = _copy(w.mirror[idx])
             except IndexError as e:
@@ -545,7 +579,7 @@ class Interp:
         self.ended = True
         return self.check_all("end")
 
-    def _register(self, coll, twin, mirror, anc, tainted, how, cold, kind):
+    def _register(self, coll, twin, mirror, anc, tainted, how, cold, kind, lineage_tags=()):
         """Append a new member; verify it at creation (through a throw-away twin object when ``cold``)."""
         ent = self._new_ent(coll, mirror, anc, tainted, how)
         self.pool.append(ent)
@@ -559,6 +593,7 @@ class Interp:
         if why is None:
             return []
         self.pool[-1] = None
+        self.tags |= set(lineage_tags)
         if tainted:
             b = util.exc_bucket(f"pool-member-raises|{kind}|derived-after", exc) if exc is not None else f"pool-member-changed|{kind}|derived-after|{why}"
             return [(b, f"new member ({how}) derived from a collection that was mutated earlier\n" + detail)]
@@ -649,6 +684,8 @@ class Interp:
         self.labels.add("derive:" + kind)
         if v.uout and kind in ("slice", "boolmask", "rowmask"):
             self.tags.add(KF_SLICE_UOUT)
+        if kind == "slice" and has_neg_step(step["index"]) and has_zero_chunk(v.coll):
+            self.tags.add(KF_NEG_ZERO_CHUNK)
         try:
             y = fc(v.coll)
         except NotImplementedError:
@@ -679,9 +716,12 @@ class Interp:
             self.labels.add("unknown-chunks-member")
         if tainted:
             self.labels.add("derived-after-mutation")
-        fails = self._register(y, twin, mirror, anc, tainted, kind, step.get("cold"), "derive")
+        lineage = v.tags | {x for w in extra for x in w.tags}
+        fails = self._register(y, twin, mirror, anc, tainted, kind, step.get("cold"), "derive", lineage)
         if self.pool[-1] is not None:
             self.pool[-1].uout = v.uout or any(w.uout for w in extra)
+            self.pool[-1].weight = 1 + v.weight * (2 if kind in ("boolmask", "rowmask") else 1) + sum(w.weight for w in extra)
+            self.pool[-1].tags = set(self.tags) | v.tags | {x for w in extra for x in w.tags}
         return fails
 
     def op_drop(self, step):
@@ -761,6 +801,8 @@ class Interp:
             self.tags.add(KF_DMASK_ARRAY)
         if any(e is None for e in key["tuple"]):
             self.tags.add(KF_NONE_KEY)
+        if has_neg_step(key) and has_zero_chunk(t.coll):
+            self.tags.add(KF_NEG_ZERO_CHUNK)
         if nonscalar and sel is not None and np.ndim(np_val) > len(sel):
             self.tags.add(KF_LEADING_ONE)
         if nonscalar and not dmask_key and any(isinstance(e, dict) and "dask" in e for e in key["tuple"]):
@@ -818,6 +860,9 @@ class Interp:
             if w is not t:
                 t.anc |= w.anc | {w.eid}
             t.uout = t.uout or w.uout
+            t.weight += w.weight
+        t.weight += 1
+        t.tags |= self.tags | {x for w in kdeps + vdeps for x in w.tags}
         t.anc.discard(t.eid)
         for lab in labs:
             self.labels.add(lab)
@@ -910,7 +955,7 @@ class Interp:
         assert (np_exc is not None) == (expect == "raise"), f"NumPy {'raised ' + repr(np_exc) if np_exc else 'accepted'}; step expects {expect}"
         if wh is not None and t.mirror.ndim == 0:
             self.tags.add(KF_WHERE_0D)
-        if wh is None and np_exc is None:
+        if np_exc is None:
             with np.errstate(all="ignore"):
                 if np.asarray(npf(*[a for a, _, _ in ins])).dtype != t.mirror.dtype:
                     self.tags.add(KF_OUT_DTYPE)
@@ -948,6 +993,8 @@ class Interp:
         t.mirror = m2
         t.nmut += 1
         t.uout = True
+        t.weight = 1 + sum(w.weight for w in deps) + (t.weight if wh is not None else 0)
+        t.tags |= self.tags | {x for w in deps for x in w.tags}
         for w in deps:
             if w is not t:
                 t.anc |= w.anc | {w.eid}
@@ -1056,6 +1103,7 @@ def gen_derive(D_, it, family="any"):
     cands = _members(it)
     if not cands:
         return None
+    cands = [c for c in cands if it.pool[c].weight <= MAX_WEIGHT] or cands[:1]
     i = D_.choice(cands)
     v = it.pool[i]
     m = v.mirror
@@ -1088,6 +1136,9 @@ def gen_derive(D_, it, family="any"):
     step = {"op": "derive", "src": i, "kind": kind, "cold": D_.chance(1, 3)}
     if kind == "slice":
         step["index"] = _enc_index(gidx.gen_basic_index(D_, m.shape, allow_none=False))
+        if has_neg_step(step["index"]) and has_zero_chunk(v.coll) and _steer(KF_NEG_ZERO_CHUNK):
+            it.excluded.append(KF_NEG_ZERO_CHUNK)
+            step["index"] = {"tuple": _no_neg(step["index"]["tuple"])}
     elif kind == "addw":
         step["other"] = D_.choice(same_shape)
     elif kind == "sum":
@@ -1151,6 +1202,10 @@ def _one_chunk(shape):
     return [[int(n)] for n in shape]
 
 
+def _no_neg(elems):
+    return [{"slice": [None, None, -e["slice"][2]]} if isinstance(e, dict) and "slice" in e and e["slice"][2] is not None and e["slice"][2] < 0 else e for e in elems]
+
+
 def _no_neg_after_int(elems):
     out, seen = [], False
     for e in elems:
@@ -1193,6 +1248,9 @@ def _gen_key(D_, it, i, t, family):
         if key_props(key)["int_before_negslice"] and _steer(KF_INT_BEFORE):
             it.excluded.append(KF_INT_BEFORE)
             key = {"tuple": _no_neg_after_int(key["tuple"])}
+        if has_neg_step(key) and has_zero_chunk(t.coll) and _steer(KF_NEG_ZERO_CHUNK):
+            it.excluded.append(KF_NEG_ZERO_CHUNK)
+            key = {"tuple": _no_neg(key["tuple"])}
         if len(idx) == 1 and D_.bool():
             key["bare"] = True
         return key, "ok"
@@ -1253,7 +1311,11 @@ def _gen_key(D_, it, i, t, family):
     if key_props(key)["int_before_negslice"] and _steer(KF_INT_BEFORE):
         it.excluded.append(KF_INT_BEFORE)
         key = {"tuple": _no_neg_after_int(elems)}
-    if len(elems) == 1 and D_.bool():
+    if has_neg_step(key) and has_zero_chunk(t.coll) and _steer(KF_NEG_ZERO_CHUNK):
+        it.excluded.append(KF_NEG_ZERO_CHUNK)
+        key = {"tuple": _no_neg(key["tuple"])}
+    bare_ok = not (fk == "dask_bool" and nd == 1 and t.masked and _steer(KF_MASKED_DMASK))
+    if len(elems) == 1 and bare_ok and D_.bool():
         key["bare"] = True
     return key, "ok"
 
@@ -1307,7 +1369,8 @@ def _gen_value(D_, it, i, t, key, sel):
     dtype = D_.weighted([(t.dt, 4), ("i8", 1), ("f8", 1), ("bool", 1)])
     if k == "dpool":
         no_uout = _steer(KF_SLICE_UOUT)
-        cands = _members(it, lambda e: _plain(e) and e.mirror.ndim >= len(vs) and not (no_uout and e.uout))
+        no_zero = _steer(KF_NEG_ZERO_CHUNK)
+        cands = _members(it, lambda e: _plain(e) and e.mirror.ndim >= len(vs) and not (no_uout and e.uout) and not (no_zero and has_zero_chunk(e.coll)))
         rel = [c for c in cands if it.pool[c] is t or t.eid in it.pool[c].anc]
         j = D_.choice(rel) if rel and D_.chance(1, 2) else (D_.choice(cands) if cands else None)
         idx = fit_index(D_, it.pool[j].shape, vs) if j is not None else None
@@ -1336,6 +1399,9 @@ def gen_setitem(D_, it, family="any"):
     if not cands:
         return None
     i = D_.choice(known) if known and not D_.chance(1, 8) else D_.choice(cands)
+    if it.pool[i].weight > MAX_WEIGHT:
+        it.rejects.append("size-cap")
+        return None
     t = it.pool[i]
     key, expect = _gen_key(D_, it, i, t, family)
     if key is None:
@@ -1395,6 +1461,9 @@ def gen_ufunc(D_, it):
     if not tg:
         return None
     i = D_.choice(tg)
+    if it.pool[i].weight > MAX_WEIGHT:
+        it.rejects.append("size-cap")
+        return None
     t = it.pool[i]
     dt = t.dt
     fn = D_.weighted([("add", 5), ("multiply", 2), ("negative", 2 if dt != "bool" else 0), ("sin", 2 if dt == "f8" else 0)])
@@ -1452,8 +1521,8 @@ def gen_ufunc(D_, it):
     step = {"op": "ufunc_out", "tgt": i, "fn": fn, "api": D_.choice(["np", "da"]), "ins": ins, "where": where, "joint": D_.chance(1, 3)}
     if form:
         step["form"] = form
-    if where is None and form is None:
-        # out= without where=: NumPy casts the result into out's dtype
+    if form is None:
+        # NumPy casts the result into out's dtype
         with np.errstate(all="ignore"):
             res = getattr(np, fn)(*[it._ufunc_input(s)[0] for s in ins])
         if res.dtype != t.mirror.dtype:
@@ -1846,7 +1915,8 @@ REGION_DOC = {
     KF_DINT_ND: "setitem with a 1-d dask int index and a value of >= 2 dimensions",
     KF_LEADING_ONE: "setitem with a value that has more dimensions than the selection (extra leading unit dimensions)",
     KF_WHERE_0D: "ufunc(..., out=v, where=mask) on a 0-d v",
-    KF_OUT_DTYPE: "ufunc(..., out=v) without where= whose natural result dtype differs from v's dtype",
+    KF_NEG_ZERO_CHUNK: "negative-step slice of a collection whose chunks contain a zero-width block next to other blocks (typical after compute_chunk_sizes)",
+    KF_OUT_DTYPE: "ufunc(..., out=v) whose natural result dtype differs from v's dtype",
     KF_SLICE_UOUT: "a basic index / boolean mask applied to a collection whose expression contains an ufunc out= result",
 }
 
@@ -1924,5 +1994,10 @@ _COMMON = [
     "alias",
     "both-raise",
     "multi-block",
+    "joint-compute",
+    "derive:persist",
+    "derive:copy",
+    "created-cold",
+    "zero-length-axis",
 ]
 REQUIRED_CLASSES = {"quick": list(_COMMON), "thorough": list(_COMMON)}
